@@ -48,6 +48,14 @@ class _WeightedSlots:
         try: yield
         finally:
             with s.cv: s.used -= w; s.cv.notify_all()
+    @contextlib.contextmanager
+    def exclusive(s):
+        with s.cv:
+            while s.used > 0: s.cv.wait()
+            s.used = s.cap
+        try: yield
+        finally:
+            with s.cv: s.used = 0; s.cv.notify_all()
 CBMC_SLOTS = _WeightedSlots(int(os.environ.get("VERIF_CBMC_SLOTS", NCPU)))
 def set_cbmc_slots(n):
     """at most n memory-heavy solver processes (mem_gb >= 30) at a time; light ones keep one unit each"""
@@ -277,7 +285,11 @@ class Task:
                 def run_group(g):
                     c2 = list(cb)
                     for p in g: c2 += ["--property", p]
-                    with CBMC_SLOTS.take(s.mem_gb): return sh(c2, cwd=d, timeout=s.timeout, mem_gb=s.mem_gb)
+                    with CBMC_SLOTS.take(s.mem_gb): out = sh(c2, cwd=d, timeout=s.timeout, mem_gb=s.mem_gb)
+                    if out[2] != "TIMEOUT" and not out[1].rstrip().endswith("]"):
+                        # the solver process was killed (memory pressure from concurrent work): once more, alone
+                        with CBMC_SLOTS.exclusive(): out = sh(c2, cwd=d, timeout=s.timeout, mem_gb=s.mem_gb)
+                    return out
                 with cf.ThreadPoolExecutor(max_workers=min(len(groups), 8)) as ex2: outs = list(ex2.map(run_group, groups))
                 res["time"]["cbmc"] = round(time.time() - t0, 2); res["time"]["cbmc_cpu_sum"] = round(sum(x[3] for x in outs), 2)
                 props = []; msgs = []; js = None
@@ -295,6 +307,8 @@ class Task:
                 rc = 0; o = ""; e = ""
             else:
                 with CBMC_SLOTS.take(s.mem_gb): rc, o, e, t = sh(cb, cwd=d, timeout=s.timeout, mem_gb=s.mem_gb)
+                if e != "TIMEOUT" and not o.rstrip().endswith("]"):
+                    with CBMC_SLOTS.exclusive(): rc, o, e, t = sh(cb, cwd=d, timeout=s.timeout, mem_gb=s.mem_gb)
                 res["time"]["cbmc"] = round(t, 2)
                 open(os.path.join(d, "cbmc.json"), "w").write(o); open(os.path.join(d, "cbmc.err"), "w").write(e)
                 if e == "TIMEOUT": res["why"] = "cbmc timeout after %ds" % s.timeout; return res
